@@ -111,8 +111,21 @@ Proof. intros t c Hr. unfold trait_env, env_get. rewrite Hr. cbn. split; reflexi
 
 (* the where-clause attached is the one dedicated to the counterpart, else the default one *)
 Theorem where_clause_choice : forall k f ty d c,
-    env_get (trait_env (view_type k f ty d) c) "where_clause" = print_where (find_for wa_ty (fun _ => true) (d_where (dt_get_attrs d)) ty).
+    env_get (trait_env (view_type k f ty d) c) "where_clause" =
+    print_where_all (dt_where d) (find_for wa_ty (fun _ => true) (d_where (dt_get_attrs d)) ty).
 Proof. intros. unfold trait_env, env_get, view_type, where_attr_for. cbn. reflexivity. Qed.
+
+(* the deriving type's own where-predicates are carried, first and in order, whatever #[where_clause] applies *)
+Theorem own_where_carried : forall own w, own <> [] ->
+    exists rest, print_where_all own w = TIdent "where" :: join_preds own ++ rest /\
+                 rest = match w with Some a => [comma] ++ join_preds (wa_preds a) | None => [] end.
+Proof.
+  intros own w Hne. destruct own as [|p own']; [contradiction Hne; reflexivity|]. unfold print_where_all.
+  destruct w as [a|]; eexists; split; try reflexivity. rewrite app_nil_r. reflexivity.
+Qed.
+(* and a type without where-clause gets exactly what it got before *)
+Theorem no_own_where : forall w, print_where_all [] w = print_where w.
+Proof. reflexivity. Qed.
 
 Example lifetimes_example :
   lt_names (add_missing_lts [mk_lt "a"] ["c"; "c"; "a"]%string) = ["a"; "c"]%string.
